@@ -265,9 +265,18 @@ def com_field_list_to_show_statement(com_field_list: ComFieldList) -> str:
 
 
 def like_to_regex(like: str) -> re.Pattern:
-    like = like.replace("%", ".*?")
-    like = like.replace("_", ".")
-    return re.compile(like)
+    """
+    Translate a SQL LIKE pattern into a regex. Use `fullmatch`, as LIKE matches the whole string.
+    """
+    parts = []
+    for char in like:
+        if char == "%":
+            parts.append(".*")
+        elif char == "_":
+            parts.append(".")
+        else:
+            parts.append(re.escape(char))
+    return re.compile("".join(parts), flags=re.DOTALL)
 
 
 class BaseInfoSchema:
